@@ -63,8 +63,8 @@ def run(ctx):
     tp = L.consts().get("LOOP_TO_PROCESS", L.TO_PROCESS_FALLBACK)
     rng = ctx.rng
     thorough = ctx.tier == "thorough" or not ctx.proof_ok
-    nwork = 4000 if thorough else 500
-    ngen = 12000 if thorough else 1500
+    nwork = 3000 if thorough else 500
+    ngen = 8000 if thorough else 1500
     cases = corpus()
     kinds = {"corpus": len(cases), "workload": nwork, "general_no_signals": ngen}
     for i in range(nwork):
